@@ -200,6 +200,35 @@ def r3_bounds_matrix(cx):
             _cell(cx, "R3", "R3/SliceParser::%s" % m, f, "SliceParser::%s" % m)
 
 
+def r3b_crc_check_is_panic_free(cx):
+    """assert_slice_crc is on the path of every CRC-protected block, including the path taken when damage HAS been
+    detected: its slice indexing must be bounded by the length of the very slice it indexes -- the parameter by
+    `buf.len()` and the CRC size only, a derived slice by its own `len()`"""
+    F = cx.F
+    f = F.one(name="bases::block::assert_slice_crc")
+    b = F.body(f)
+    idx = b.calls(r"slice::index::<impl std::ops::Index(Mut)?<.*> for \[.*\]>::index(_mut)?$|SliceIndex<\[.*\]>>::index(_mut)?$")
+    if not idx:
+        raise AnchorLost("assert_slice_crc: no slice indexing found")
+    idx_blocks = {i for i, _ in idx}
+    bad = []
+    for i, t in idx:
+        base = b.origins(t["args"][0])
+        parents = [x[1] for x in base if x[0] == "call" and x[1] in idx_blocks and x[1] != i]
+        bo = b.origins(t["args"][1])
+        calls = [(x[1], b.term(x[1])) for x in bo if x[0] == "call"]
+        lens = [(j, ct) for j, ct in calls if call_is(ct, r"\[.*\]>::len$")]
+        other = [callee_str(ct).split("::")[-1] for j, ct in calls if not call_is(ct, r"\[.*\]>::len$")]
+        consts = {x[1] for x in bo if x[0] == "const" and isinstance(x[1], int)}
+        if not parents:
+            ok = bool(lens) and not other and consts <= {4} and all(not any(y[0] == "call" and y[1] in idx_blocks for y in b.origins(ct["args"][0])) for j, ct in lens)
+        else:
+            ok = any(any(y == ("call", pidx) for y in b.origins(ct["args"][0])) for j, ct in lens for pidx in parents)
+        if not ok:
+            bad.append("line %s (bound from %s, constants %s)" % (t.get("ln"), sorted(set(other + ["len"] * bool(lens))), sorted(consts)))
+    cx.ob("R3", "R3/assert_slice_crc", not bad, f, "every slice index in assert_slice_crc (%d) is bounded by the length of the slice it indexes: %s" % (len(idx), bad or "ok"))
+
+
 READER_API = [dict(impl_self="reader::jubako::Container"), dict(impl_self="reader::content_pack::ContentPack"), dict(impl_self="reader::directory_pack::DirectoryPack"),
               dict(impl_self="reader::manifest_pack::ManifestPack"), dict(impl_self="reader::container_pack::ContainerPack"), dict(impl_self="reader::byte_region::ByteRegion"),
               dict(impl_self="reader::byte_slice::ByteSlice"), dict(impl_self="reader::byte_stream::ByteStream"), dict(name="reader::jubako::open_as_container_pack"),
@@ -383,7 +412,7 @@ def r6_size_arithmetic(cx):
                       "informational: unguarded subtraction at line %s whose operands all come from CRC-verified blocks (header/tail fields): only a re-checksummed file reaches it, which the property excludes" % ln, ln=ln, info=True)
 
 
-SWALLOW = r"std::result::Result::<.*>::(ok|unwrap_or|unwrap_or_default|unwrap_or_else|is_ok|is_err|err|map_or|map_or_else)$"
+SWALLOW = r"std::result::Result::<.*>::(ok|unwrap_or|unwrap_or_default|unwrap_or_else|is_ok|is_err|err|map_or|map_or_else|iter|iter_mut)$|<std::result::Result<.*> as std::iter::IntoIterator>::into_iter$|Iterator>::(flat_map|flatten)::<std::result::Result<|Iterator>::flat_map::<std::result::Result<"
 
 
 def r7_errors_not_swallowed(cx):
@@ -401,7 +430,8 @@ def r7_errors_not_swallowed(cx):
                 continue
             control += 1
             nm = callee_str(t)
-            if re.search(r"bases::types::error::Error>::|std::io::Error>::", nm):
+            # (`iter.flat_map(|x| -> Result<..>)` / `.flatten()` over Results iterate the Ok values and drop the Err ones)
+            if re.search(r"bases::types::error::Error>::|std::io::Error>::|bases::types::error::Error> as std::iter::IntoIterator|std::io::Error> as std::iter::IntoIterator|flat_map::<std::result::Result<[^{]*(bases::types::error::Error|std::io::Error)>", nm):
                 n += 1
                 cx.ob("R7", "R7/%s@%s" % (f["name"], nm.split("::")[-1]), False, f,
                       "an error value is discarded by %s: damage reported by a lower layer becomes None/default instead of an Err" % nm, ln=t.get("ln"))
@@ -429,6 +459,7 @@ RULES = [
     ("R1", r1_pool_task, 2),
     ("R2", r2_terminal_state, 2),
     ("R3", r3_bounds_matrix, 15),
+    ("R3", r3b_crc_check_is_panic_free, 1),
     ("R4", r4_debug_only_guards, 6),
     ("R5", r5b_crcless_parse_arithmetic, 4),
     ("R5", r5_unchecked_parse, 7),
